@@ -91,6 +91,9 @@ pub struct Shape {
     pub coef: Coef,
     /// at most this many variables per linear combination (0 = all)
     pub lc_width: usize,
+    /// register the randomized closures after this many first-phase operations (None = after all)
+    #[serde(default)]
+    pub register_at: Option<usize>,
 }
 
 impl Shape {
@@ -105,6 +108,7 @@ impl Shape {
             phase2: p2.iter().map(|v| v.to_vec()).collect(),
             coef: Coef::Sym,
             lc_width: 0,
+            register_at: None,
         }
     }
     pub fn gates(&self) -> (usize, usize) {
@@ -564,7 +568,19 @@ pub fn run_ops<G: AffineRepr, CS: RoleCS<G>>(cs: &mut CS, ops: &[Op], shr: &Rc<R
                 // spelled as two separate constant terms (as in `lhs - rhs` with a constant on
                 // each side), since linear combinations never merge terms
                 let c = sh.carry("const", e - val);
-                let ca = sh.draw("k");
+                let ca = match sh.coef {
+                    Coef::Sym => sh.draw("k"),
+                    // a constant term that is exactly 1, -1 or 0
+                    Coef::Mixed(_) => {
+                        use rand::Rng;
+                        match sh.coef_rng.gen_range(0..4u32) {
+                            0 => FOf::<G>::one(),
+                            1 => -FOf::<G>::one(),
+                            2 => FOf::<G>::zero(),
+                            _ => sh.draw("k"),
+                        }
+                    }
+                };
                 cs.constrain(LinearCombination::from(ca) + lc + LinearCombination::from(c - ca));
                 // value of the constraint under the tracked assignment (e on the recording side)
                 sh.con_vals.push(val + c);
@@ -754,7 +770,8 @@ where
     }
     let res = {
         let mut prover = Prover::new(pc, &mut pt);
-        run_ops(&mut prover, &shape.phase1, shr, false);
+        let at = shape.register_at.unwrap_or(shape.phase1.len()).min(shape.phase1.len());
+        run_ops(&mut prover, &shape.phase1[..at], shr, false);
         for ops in shape.phase2.iter() {
             let ops = ops.clone();
             let sh2 = shr.clone();
@@ -765,6 +782,7 @@ where
                 })
                 .unwrap();
         }
+        run_ops(&mut prover, &shape.phase1[at..], shr, false);
         let mut ext = ExtRng(rand_chacha::ChaChaRng::seed_from_u64(ext_seed));
         prover.prove_and_return_transcript(&mut ext, bp).map(|(p, _t)| p)
     };
@@ -851,7 +869,8 @@ pub fn build_verifier<'t, G: AffineRepr + 'static>(
     vt: &'t mut Transcript,
 ) -> Verifier<G, &'t mut Transcript> {
     let mut verifier = Verifier::new(vt);
-    run_ops(&mut verifier, &shape.phase1, shr, false);
+    let at = shape.register_at.unwrap_or(shape.phase1.len()).min(shape.phase1.len());
+    run_ops(&mut verifier, &shape.phase1[..at], shr, false);
     for ops in shape.phase2.iter() {
         let ops = ops.clone();
         let sh2 = shr.clone();
@@ -862,6 +881,7 @@ pub fn build_verifier<'t, G: AffineRepr + 'static>(
             })
             .unwrap();
     }
+    run_ops(&mut verifier, &shape.phase1[at..], shr, false);
     verifier
 }
 
